@@ -53,7 +53,7 @@ fn merge_binary_expression(
         Some(BinaryExpression {
           operator: BinaryOperator::PLUS,
           e1: inner.e1,
-          e2: inner.e2 + outer_const,
+          e2: inner.e2.wrapping_add(outer_const),
         })
       } else {
         None
@@ -64,7 +64,7 @@ fn merge_binary_expression(
         Some(BinaryExpression {
           operator: BinaryOperator::MUL,
           e1: inner.e1,
-          e2: inner.e2 * outer_const,
+          e2: inner.e2.wrapping_mul(outer_const),
         })
       } else {
         None
@@ -76,12 +76,12 @@ fn merge_binary_expression(
     | BinaryOperator::GE
     | BinaryOperator::EQ
     | BinaryOperator::NE => {
-      if inner.operator == BinaryOperator::PLUS {
-        Some(BinaryExpression {
-          operator: outer_operator,
-          e1: inner.e1,
-          e2: outer_const - inner.e2,
-        })
+      // (x + c1) OP c2 is x OP (c2 - c1) only if c2 - c1 is representable: with c1 = -10 and
+      // c2 = 2147483642 the difference wraps and `x < -2147483644` is false for every small x.
+      if inner.operator == BinaryOperator::PLUS
+        && let Some(shifted_const) = outer_const.checked_sub(inner.e2)
+      {
+        Some(BinaryExpression { operator: outer_operator, e1: inner.e1, e2: shifted_const })
       } else {
         None
       }
